@@ -349,7 +349,12 @@ class BinaryGroup(GroupNode):
     has_boost = False
 
     def query(self, parser):
-        assert len(self.nodes) == 2
+        # An operand that was itself a dangling operator (e.g. "a ANDMAYBE
+        # REQUIRE") has removed itself from this group
+        if not self.nodes:
+            return None
+        elif len(self.nodes) == 1:
+            return self.nodes[0].query(parser)
 
         qa = self.nodes[0].query(parser)
         qb = self.nodes[1].query(parser)
